@@ -3,7 +3,7 @@
 # usage: tools/baseline_compare.sh [repo_dir]
 REPO=${1:-/repo}
 OUT=$(mktemp -d /tmp/vf_baseline_XXXX)
-cd "$REPO" && env -u EASYNETWORK_VERIF /venv/bin/python -m pytest -ra -q -p no:cacheprovider --timeout=900 --continue-on-collection-errors --junitxml="$OUT/junit.xml" > "$OUT/log.txt" 2>&1
+cd "$REPO" && env -u EASYNETWORK_VERIF PYTHONPATH="$REPO/src" /venv/bin/python -m pytest -ra -q -p no:cacheprovider --timeout=900 --continue-on-collection-errors --junitxml="$OUT/junit.xml" > "$OUT/log.txt" 2>&1
 tail -3 "$OUT/log.txt"
 /venv/bin/python - "$OUT/junit.xml" <<'PY'
 import json, sys, xml.etree.ElementTree as ET
